@@ -6,6 +6,7 @@ package main
 import (
 	"fmt"
 	"math/rand"
+	"strings"
 
 	"github.com/onflow/atree"
 
@@ -183,16 +184,27 @@ func storageScenarios() []stScenario {
 				i := 0
 				_, err := atree.NewArrayFromBatchData(s.rec, hx.MkAddr(1), hx.TI(4), func() (atree.Value, error) {
 					i++
-					if i > 300 {
+					if i > 900 { // several index slabs on the second level
 						return nil, nil
 					}
-					if i%50 == 9 {
+					if i%150 == 9 {
 						return tvs(300, uint64(i)), nil
 					}
 					return tvs(20, uint64(i)), nil
 				})
 				return err
 			}, nil
+		}},
+		{"array.CopyNonRefSimple", func(s *xStore) (func() error, error) {
+			a, err := atree.NewArray(s.rec, hx.MkAddr(1), hx.TI(4))
+			for i := 0; i < 5 && err == nil; i++ {
+				err = a.Append(tvs(10, uint64(i)))
+			}
+			return func() error { _, err := a.CopyNonRefSimple(hx.MkAddr(5)); return err }, err
+		}},
+		{"NewStorableSlab", func(s *xStore) (func() error, error) {
+			// what a caller's Value.Storable does for a value over the inline limit
+			return func() error { _, err := atree.NewStorableSlab(s.rec, hx.MkAddr(1), tvs(300, 1), 300); return err }, nil
 		}},
 		{"map.New", func(s *xStore) (func() error, error) {
 			return func() error { _, err := atree.NewMap(s.rec, hx.MkAddr(2), plainBuilder(), hx.TI(3)); return err }, nil
@@ -323,6 +335,10 @@ func storageScenarios() []stScenario {
 				return err
 			}, err
 		}},
+		{"map.CopyNonRefSimple", func(s *xStore) (func() error, error) {
+			m, err := fillMap(s, plainBuilder(), 4, 10)
+			return func() error { _, err := m.CopyNonRefSimple(hx.MkAddr(5), plainBuilder()); return err }, err
+		}},
 		{"map.batch", func(s *xStore) (func() error, error) {
 			return func() error {
 				i := uint64(0)
@@ -437,6 +453,7 @@ func (x *cbx) failingStorageCalls() {
 var callbackRequiredStore = []string{
 	"storage.GenerateSlabID/array.New", "storage.GenerateSlabID/array.grow", "storage.GenerateSlabID/array.set",
 	"storage.GenerateSlabID/array.nested-child", "storage.GenerateSlabID/array.batch",
+	"storage.GenerateSlabID/array.CopyNonRefSimple", "storage.GenerateSlabID/map.CopyNonRefSimple", "storage.GenerateSlabID/NewStorableSlab",
 	"storage.Remove/array.shrink", "storage.Remove/array.set", "storage.Remove/array.PopIterate",
 	"storage.Remove/array.nested-child", "storage.Remove/array.Storable",
 	"storage.Store/array.grow", "storage.Store/array.Storable", "storage.Retrieve/array.shrink",
@@ -456,6 +473,10 @@ var callbackRequiredStore = []string{
 	"dangling-next/array.IterateReadOnlyLoadedValues", "dangling-next/array.Iterate",
 	"dangling-next/map.IterateReadOnly", "dangling-next/map.IterateReadOnlyKeys", "dangling-next/map.IterateReadOnlyValues",
 	"dangling-next/map.ReadOnlyIterator.Next", "dangling-next/map.IterateReadOnlyLoadedValues", "dangling-next/map.Iterate",
+	"dangling-value-slab/array.Get", "dangling-value-slab/map.Get", "dangling-value-slab/array.IterateReadOnly", "dangling-value-slab/map.IterateReadOnly",
+	"wrong-kind-next/array.Iterate", "wrong-kind-next/map.IterateReadOnly", "wrong-kind-next/map.Iterate",
+	"dangling-group/map.Get", "dangling-group/map.Has", "dangling-group/map.Set", "dangling-group/map.Remove",
+	"dangling-group/map.IterateReadOnly", "dangling-group/map.Iterate", "wrong-kind-group/map.Get", "wrong-kind-group/map.Remove",
 }
 
 // iteration flavours over one array and one map (callbacks that never fail)
@@ -607,12 +628,16 @@ func secondDataSlab(ps *atree.PersistentSlabStorage, root atree.Slab) atree.Slab
 	return atree.VerifSlabNext(first)
 }
 
-// danglingNext: the SECOND data slab of a committed tree is removed from storage (pending removal /
-// register deleted from the ledger): iterations that follow the next links (or descend from the root)
-// must report that the slab was not found - never panic; the loaded-value flavours skip what is not there.
+// danglingNext: links that lead nowhere (or to a slab of another kind) on a committed storage:
+//   removed / physical  the SECOND data slab of the array and of the map is removed (pending removal / register
+//                       deleted from the ledger and the containers reopened): dangling next link and child link
+//   value-slabs         every large-value slab (StorableSlab) is removed: dangling element references
+//   wrong-kind          the second data slab's identifier holds a slab of the OTHER container kind
+// Requests that have to follow the link must report SlabNotFound (SlabData for the wrong kind) - never
+// panic, never succeed; the loaded-value flavours skip what is not there.  Nothing is written.
 func (x *cbx) danglingNext() {
 	atree.VerifSetThreshold(256)
-	for _, physical := range []bool{false, true} {
+	for _, variant := range []string{"removed", "physical", "value-slabs", "wrong-kind"} {
 		s, a, m := x.committedPair()
 		if s == nil {
 			return
@@ -623,15 +648,15 @@ func (x *cbx) danglingNext() {
 			x.st.HarnessErr = "dangling-next: the trees have no second data slab"
 			return
 		}
-		if physical {
+		tag, want := "dangling-next/", "SlabNotFound:Fatal"
+		switch variant {
+		case "removed":
+			_ = s.ps.Remove(ida)
+			_ = s.ps.Remove(idm)
+		case "physical":
 			s.ps.DropCache()
 			delete(s.ledger.Seg, ida)
 			delete(s.ledger.Seg, idm)
-		} else {
-			_ = s.ps.Remove(ida)
-			_ = s.ps.Remove(idm)
-		}
-		if physical {
 			// reopen the containers from their registers (the handles above hold the old root objects)
 			var err error
 			if a, err = atree.NewArrayWithRootID(s.rec, a.SlabID()); err == nil {
@@ -641,33 +666,166 @@ func (x *cbx) danglingNext() {
 				x.st.HarnessErr = "dangling-next: reopen: " + err.Error()
 				return
 			}
+		case "value-slabs":
+			tag = "dangling-value-slab/"
+			n := 0
+			for _, id := range s.ledger.SortedIDs() {
+				if sl, ok, _ := s.ps.Retrieve(id); ok {
+					if _, isVal := sl.(*atree.StorableSlab); isVal {
+						_ = s.ps.Remove(id)
+						n++
+					}
+				}
+			}
+			if n < 2 {
+				x.st.HarnessErr = "dangling-value-slab: the containers hold no large values"
+				return
+			}
+		case "wrong-kind":
+			tag, want = "wrong-kind-next/", "SlabData:Fatal"
+			sa, _, _ := s.ps.Retrieve(ida)
+			sm, _, _ := s.ps.Retrieve(idm)
+			_ = s.ps.Store(ida, sm)
+			_ = s.ps.Store(idm, sa)
 		}
-		for _, fl := range iterFlavours(a, m) {
+		check := func(what string, loaded bool, f func() error) {
 			if x.stop() {
 				return
 			}
-			what := "dangling-next/" + fl.name
 			before := deltaKeys(s.ps)
 			s.rec.Reset()
-			err := x.guard(what, fl.run)
 			x.st.Ops++
 			x.st.Hit(what)
+			var err error
+			if variant == "wrong-kind" && strings.HasPrefix(what, "wrong-kind-next/array.") && !loaded {
+				// readOnlyArrayIterator.Next asserts `slab.(*ArrayDataSlab)` without a check: on the unchanged
+				// library a next link to a slab of another kind is a panic, not an error.  Corrupted storage is
+				// outside C18's text (the request's ARGUMENTS are fine): counted, not raised.
+				func() {
+					defer func() {
+						if r := recover(); r != nil {
+							x.st.Hit("observation:array-read-only-iterator-panics-on-next-slab-of-another-kind")
+							err = errPanicked
+						}
+					}()
+					err = f()
+				}()
+			} else {
+				err = x.guard(what, f)
+			}
+			if err == errPanicked {
+				return
+			}
+			x.e.distinct[what+hx.ErrKind(err)] = true
+			keysOnly := variant == "value-slabs" && strings.Contains(what, "Key") // key iterations never read a value
+			switch {
+			case keysOnly:
+				if err != nil {
+					x.viol(fmt.Sprintf("%s: an iteration over the keys failed although only value slabs are missing: %s", what, hx.ErrKind(err)))
+				}
+			case loaded:
+				if err != nil && variant != "wrong-kind" {
+					x.viol(fmt.Sprintf("%s: a loaded-value iteration over a tree with a missing slab failed: %s", what, hx.ErrKind(err)))
+				}
+			case err == nil:
+				x.viol(what + ": the request had to follow a link to a missing slab and succeeded")
+			case hx.ErrKind(err) != want:
+				x.viol(fmt.Sprintf("%s: reported as %s, want %s", what, hx.ErrKind(err), want))
+			}
+			if len(s.rec.Effs) != 0 || deltaKeys(s.ps) != before {
+				x.viol(what + ": the failed request touched storage")
+			}
+		}
+		for _, fl := range iterFlavours(a, m) {
+			check(tag+fl.name, fl.loaded, fl.run)
+		}
+		if variant == "value-slabs" {
+			// fillArray / fillMap: element 7 and key 5 are large values
+			check(tag+"array.Get", false, func() error { _, err := a.Get(7); return err })
+			check(tag+"map.Get", false, func() error { _, err := m.Get(hx.CompareKey, hx.HashInput, tvs(9, 5)); return err })
+		}
+	}
+	x.danglingGroup()
+}
+
+// danglingGroup: the slab of an external collision group is removed from storage (or replaced by a slab of
+// another kind): every request on a key of that group and every iteration must report SlabNotFound
+// (SlabData), never panic.
+func (x *cbx) danglingGroup() {
+	_, _, _, _, maxMapElem, _ := atree.VerifThresholds()
+	for _, variant := range []string{"removed", "wrong-kind"} {
+		s := newXStore()
+		m, err := atree.NewMap(s.rec, hx.MkAddr(2), groupBuilder(), hx.TI(3))
+		for k := uint64(1); k <= 24 && err == nil; k++ {
+			_, err = m.Set(hx.CompareKey, hx.HashInput, tvs(9, k), tvs(maxMapElem/2, k))
+		}
+		a, err2 := fillArray(s, 3, 10)
+		if err != nil || err2 != nil {
+			x.st.HarnessErr = fmt.Sprintf("dangling-group setup: %v %v", err, err2)
+			return
+		}
+		if err := s.ps.FastCommit(2); err != nil {
+			x.st.HarnessErr = "dangling-group commit: " + err.Error()
+			return
+		}
+		groups := atree.VerifChildSlabIDs(atree.VerifMapRoot(m))
+		if !atree.VerifMapRoot(m).IsData() || len(groups) != 4 {
+			x.st.HarnessErr = fmt.Sprintf("dangling-group: expected a single data slab with 4 external groups, got %d", len(groups))
+			return
+		}
+		// the group of the keys k%4 == 1 comes second in digest order; the first group stays readable
+		gid := groups[1]
+		tag, want := "dangling-group/", "SlabNotFound:Fatal"
+		if variant == "removed" {
+			_ = s.ps.Remove(gid)
+		} else {
+			tag, want = "wrong-kind-group/", "SlabData:Fatal"
+			_ = s.ps.Store(gid, atree.VerifArrayRoot(a))
+		}
+		type req struct {
+			name   string
+			loaded bool
+			run    func() error
+		}
+		k := tvs(9, 5) // 5%4 == 1
+		reqs := []req{
+			{"map.Get", false, func() error { _, err := m.Get(hx.CompareKey, hx.HashInput, k); return err }},
+			{"map.Has", false, func() error { _, err := m.Has(hx.CompareKey, hx.HashInput, k); return err }},
+			{"map.Set", false, func() error { _, err := m.Set(hx.CompareKey, hx.HashInput, k, tvs(12, 1)); return err }},
+			{"map.Set-new-key", false, func() error { _, err := m.Set(hx.CompareKey, hx.HashInput, tvs(9, 45), tvs(12, 1)); return err }},
+			{"map.Remove", false, func() error { _, _, err := m.Remove(hx.CompareKey, hx.HashInput, k); return err }},
+		}
+		for _, fl := range iterFlavours(a, m) {
+			if strings.HasPrefix(fl.name, "map.") {
+				reqs = append(reqs, req{fl.name, fl.loaded, fl.run})
+			}
+		}
+		for _, r := range reqs {
+			if x.stop() {
+				return
+			}
+			what := tag + r.name
+			before := deltaKeys(s.ps) + hx.DumpTree(s.ps, atree.VerifMapRoot(m))
+			s.rec.Reset()
+			x.st.Ops++
+			x.st.Hit(what)
+			err := x.guard(what, r.run)
 			if err == errPanicked {
 				continue
 			}
 			x.e.distinct[what+hx.ErrKind(err)] = true
 			switch {
-			case fl.loaded:
+			case r.loaded && variant == "removed":
 				if err != nil {
-					x.viol(fmt.Sprintf("%s: a loaded-value iteration over a tree with a missing data slab failed: %s", what, hx.ErrKind(err)))
+					x.viol(fmt.Sprintf("%s: a loaded-value iteration over a map with a missing group slab failed: %s", what, hx.ErrKind(err)))
 				}
 			case err == nil:
-				x.viol(what + ": the iteration over a tree whose second data slab is missing succeeded")
-			case hx.ErrKind(err) != "SlabNotFound:Fatal":
-				x.viol(fmt.Sprintf("%s: missing data slab reported as %s, want SlabNotFound:Fatal", what, hx.ErrKind(err)))
+				x.viol(what + ": the request had to read a missing collision-group slab and succeeded")
+			case hx.ErrKind(err) != want:
+				x.viol(fmt.Sprintf("%s: reported as %s, want %s", what, hx.ErrKind(err), want))
 			}
-			if len(s.rec.Effs) != 0 || deltaKeys(s.ps) != before {
-				x.viol(what + ": the failed iteration touched storage")
+			if len(s.rec.Effs) != 0 || deltaKeys(s.ps)+hx.DumpTree(s.ps, atree.VerifMapRoot(m)) != before {
+				x.viol(what + ": the failed request changed the map or touched storage")
 			}
 		}
 	}
